@@ -32,12 +32,19 @@ Record svc_case := VC {
   vc_steps : list (gate * (list gate * list obs));
   vc_left : bool }.                 (* the owning block has been left at the end of the run *)
 
+(* the model has run out of silent transitions (the fuel of [settle] was sufficient) *)
+Definition quiescent_b (SV : list svc) (s : st) : bool :=
+  match first_task SV s (seq 0 (length SV)) with
+  | Some _ => false
+  | None => match silent_owner SV s with Some _ => false | None => true end
+  end.
+
 Fixpoint run_steps (SV : list svc) (prog : list bop) (s : st) (steps : list (gate * (list gate * list obs))) : bool * st :=
   match steps with
   | [] => (true, s)
   | (g, (en, batch)) :: r =>
       let '(s', o) := fire SV prog s g in
-      if list_eqb gate_eqb (enabled SV s) en && mset_eqb obs_eqb o batch
+      if list_eqb gate_eqb (enabled SV s) en && mset_eqb obs_eqb o batch && quiescent_b SV s'
       then run_steps SV prog s' r else (false, s')
   end.
 
